@@ -47,7 +47,12 @@ ASSUMPTIONS = [
     "requests rejects is a local failure, not a wire document",
     "CIMObject is compared with the body after percent-decoding either side",
 ]
-SENSITIVITY = []
+SENSITIVITY = [
+    "KEYVALUE VALUETYPE='integer' for numeric keys -> request:dtd-invalid:Value_integer_for_attribute_VALUETYPE...",
+    'CIMObject header built from conn.default_namespace instead of the target namespace -> header:CIMObject-namespace-differs-from-body',
+    '_iparam_instancename keeping the namespace (emits LOCALINSTANCEPATH inside IPARAMVALUE) -> request:dtd-invalid:Element_IPARAMVALUE_content...',
+    '(before the fix) ExportIndication with VALUE.NAMEDINSTANCE -> request:dtd-invalid:Element_EXPPARAMVALUE...',
+]
 
 
 # ---------------------------------------------------------------------------
